@@ -20,6 +20,7 @@ ID = "C20"
 TITLE = "Command line tools compute exactly what the library computes"
 MC = {"quick": [("MC_C20", "MC_C20.cfg", 8)], "thorough": [("MC_C20", "MC_C20.cfg", 16)]}
 TRACE = ("Trace_C20", "Trace_C20.cfg")
+THOROUGH_EXTRA_SEEDS = 2
 # the repository\'s own tests, recorded by harness/harvest_plugin.py, judged by the same trace specification
 ALSO = {"quick": [], "thorough": ["harness.props.hv20"]}
 REQUIRED = ["BoundsArg", "GeometryArg", "GeoJson", "Cli", "is-bounds", "not-bounds", "underscore", "spaces", "five-numbers",
